@@ -46,10 +46,16 @@ def top_groups(seq):
     return out
 
 
-def check_instance(mode, pats, ex, fs, res, seq=None):
+def _enc(x):
+    return x.encode('latin-1') if isinstance(x, str) else None if x is None else [_enc(i) for i in x]
+
+
+def check_instance(mode, pats, ex, fs, res, seq=None, is_bytes=False):
     """pats: pattern text or list; ex: exclude or None; seq: AST when pats is a single generated pattern."""
     mod = G if mode == 'glob' else F
     fl = flags_of(mode, fs)
+    if is_bytes:
+        pats, ex = _enc(pats), _enc(ex)
     inp = {'mode': mode, 'patterns': pats, 'exclude': ex, 'flags': fs}
     res.n['evaluations'] += 1
     try:
@@ -77,7 +83,7 @@ def check_instance(mode, pats, ex, fs, res, seq=None):
         res.add_violation(ID, run.viol('compile-raises', inp, 'compiles like translate', {'exc': type(e).__name__}))
         return
     T = _wcmatch.WcRegexp(tuple(cre[:len(pos)]), tuple(cre[len(pos):]))
-    c = langcmp.equal(T, m, False)
+    c = langcmp.equal(T, m, is_bytes)
     res.n['states'] += c.states
     res.n['transitions'] += c.transitions
     res.n['traces_validated_against_impl'] += c.traces
@@ -92,7 +98,7 @@ def check_instance(mode, pats, ex, fs, res, seq=None):
         res.add_violation(ID, run.viol('translate-language', dict(inp, name=c.witness),
                                        {'translate_regexes_match': c.accs[1]}, {'translate_regexes_match': c.accs[0]}))
     # capture groups
-    if seq is not None and 'E' in fs and isinstance(pats, str) and len(pos) == 1 and not ({'S', 'B', 'N'} & set(fs)):
+    if seq is not None and not is_bytes and 'E' in fs and isinstance(pats, str) and len(pos) == 1 and not ({'S', 'B', 'N'} & set(fs)):
         want = count_ext(seq)
         got = cre[0].groups
         res.outcomes.add('groups-ok' if got == want else 'groups-bad')
@@ -150,7 +156,9 @@ def _empty_ok(seq):
 # ---------------------------------------------------------------- planning
 
 FN_FLAGSETS = ['E', 'DE', '', 'EI', 'DEW', 'EU', 'DEC']
-GL_FLAGSETS = ['E', 'GE', 'GDE', 'GXE', 'LE', 'GZE', 'GEO', 'GDEW', 'GXDEO', '', 'GLDEI']
+GL_FLAGSETS = ['E', 'GE', 'GDE', 'GXE', 'LE', 'GZE', 'GEO', 'GDEW', 'GXDEO', '', 'GLDEI', 'GEWO']
+BYTES_FN_FLAGSETS = ['E', 'DEW', 'EI']
+BYTES_GL_FLAGSETS = ['GE', 'GEO', 'GEWO', 'GDEW', 'GEZ', 'GXEW']
 LIST_POOL_FN = ['*', 'a*', '.*', '*.a', '!*.a', '[!a]*', '@(a|b)', '!(a)', '\\!a', '!a', '-a', '-?a', '!(a)b', '*|!a*',
                 '{a,b}*', 'a|b', '!?(a)*', 'a\\x7cb', '\\x7ba,b\\x7d*', 'a\\174\\x2a']
 LIST_POOL_GL = ['*', 'a/*', '**', '**/.a', '!*.a', '*/', '!(a)', '!a*', '.*', '*.a', '**/a|!b', '{a,.a}/*', '-a', '!**/?a',
@@ -185,6 +193,9 @@ def plan(tier, seed):
     for mode in ('fn', 'glob'):
         for sh in range(16):
             chunks.append(('lists', mode, nlist, sh, 16))
+        for sh in range(8):
+            chunks.append(('bytes', mode, sh, 8))
+    layers.append({'kind': 'bytes twins', 'budgets': [1, 2], 'flagsets_fn': BYTES_FN_FLAGSETS, 'flagsets_glob': BYTES_GL_FLAGSETS})
     layers.append({'kind': 'lists', 'pool_fn': LIST_POOL_FN, 'pool_glob': LIST_POOL_GL, 'max_inclusions': nlist,
                    'max_exclusions': 1, 'flagsets_fn': LIST_FLAGS_FN, 'flagsets_glob': LIST_FLAGS_GL})
     return {
@@ -226,6 +237,27 @@ def run_chunk(chunk):
                 check_instance(mode, text, None, fs, res, seq=seq)
             if k % 499 == 0:
                 res.samples.append({'mode': mode, 'pattern': text})
+    elif chunk[0] == 'bytes':
+        # the bytes copies of the regex fragments translate() and the matcher use are separate constants
+        _k, mode, sh, ns = chunk
+        from . import c01, c02
+        if mode == 'fn':
+            lv, inner, fsets = c01.menus()[0], None, BYTES_FN_FLAGSETS
+        else:
+            top, _topx, inner = c02.menus()
+            lv, fsets = top, BYTES_GL_FLAGSETS
+        k = 0
+        for budget in (1, 2):
+            for seq in pat.gen(budget, lv, ext=True, depth=1, max_alts=2, inner=inner):
+                k += 1
+                if k % ns != sh:
+                    continue
+                for fs in fsets:
+                    check_instance(mode, pat.render(seq), None, fs, res, seq=seq, is_bytes=True)
+        for p, ex, fs in ((['*', '!a'], None, 'GNEWO'), ('*', 'a', 'GEWO'), (['**', '!*/'], None, 'GNEW'), ('*/', None, 'GEWO')):
+            if mode == 'glob':
+                check_instance(mode, p, ex, fs, res, is_bytes=True)
+        res.samples.append({'mode': mode, 'bytes': True, 'flagsets': fsets})
     else:
         _k, mode, nlist, sh, ns = chunk
         pool = LIST_POOL_GL if mode == 'glob' else LIST_POOL_FN
@@ -233,7 +265,8 @@ def run_chunk(chunk):
         k = 0
         for n in range(1, nlist + 1):
             for combo in itertools.product(pool, repeat=n):
-                for ex in [None] + pool[:6]:
+                # an empty exclude= is still an exclude= argument (it switches the inline negation syntax off)
+                for ex in [None] + pool[:6] + ([[], ''] if n == 1 else []):
                     k += 1
                     if k % ns != sh:
                         continue
